@@ -161,6 +161,21 @@ func c14Cases(afterClear bool) []string {
 	return out
 }
 
+func proxyCases() []string {
+	var out []string
+	for na := 0; na <= 2; na++ {
+		for nb := 0; nb <= 2; nb++ {
+			for a2 := 0; a2 <= 1; a2++ {
+				for b2 := 0; b2 <= 1; b2++ {
+					out = append(out, fmt.Sprintf("na=%d,nb=%d,a2=%d,b2=%d,bblock=0", na, nb, a2, b2))
+					out = append(out, fmt.Sprintf("na=%d,nb=%d,a2=%d,b2=%d,bblock=1", na, nb, a2, b2))
+				}
+			}
+		}
+	}
+	return out
+}
+
 func scriptCases(n int) []string {
 	var out []string
 	for a := 0; a < n; a++ {
@@ -376,8 +391,10 @@ func init() {
 	plans["C08"] = Plan{
 		Quick: []Job{
 			{H: "H_C08_Error", K: 40, U: 3, Prune: true},
-			{H: "H_C08_Script", K: 60, U: 3, Prune: true, Preempt: 2, Fixes: []string{"op0=0,op1=4", "op0=4,op1=0"}, TimeoutSec: 900},
-			{H: "H_C08_Script", K: 60, U: 3, Prune: true, Preempt: 2, Fixes: []string{"op0=2,op1=0", "op0=1,op1=3"}, TimeoutSec: 900},
+			{H: "H_C08_Script", K: 60, U: 3, Prune: true, Preempt: 2, Fixes: []string{"op0=0,op1=4"}, TimeoutSec: 1200},
+			{H: "H_C08_Script", K: 60, U: 3, Prune: true, Preempt: 2, Fixes: []string{"op0=4,op1=0"}, TimeoutSec: 1200},
+			{H: "H_C08_Script", K: 60, U: 3, Prune: true, Preempt: 2, Fixes: []string{"op0=2,op1=0"}, TimeoutSec: 1200},
+			{H: "H_C08_Script", K: 60, U: 3, Prune: true, Preempt: 2, Fixes: []string{"op0=0,op1=3"}, TimeoutSec: 1200},
 		},
 		Thorough: cat(
 			[]Job{
@@ -460,8 +477,10 @@ func init() {
 			},
 			split(Job{H: "H_C20_KeyedListStep", K: 2, U: 5, MapCap: 4, Fixes: uniqCases(), QueryMs: 200000}, 8),
 			split(Job{H: "H_C20_KeyedMapStep", K: 2, U: 5, MapCap: 4, Fixes: []string{"op=0,n=0", "op=0,n=1", "op=0,n=2", "op=1,n=0", "op=1,n=1", "op=1,n=2", "op=2,n=0", "op=2,n=1", "op=2,n=2"}, QueryMs: 200000}, 3),
+			split(Job{H: "H_C20_Proxy", K: 30, U: 5, Fixes: []string{"na=2,nb=1,a2=0,b2=0,bblock=1", "na=2,nb=2,a2=1,b2=0,bblock=0", "na=0,nb=2,a2=0,b2=1,bblock=1"}, TimeoutSec: 900}, 3),
 		),
-		Bounds:  "ioseek: one inductive step (Seek or Read) from an arbitrary valid state, all of size/position/offset full 64-bit, buffer length 0..8; iosizer: 4 calls (Read/Write symbolic) with arbitrary (n, err), buffers <= 8 bytes; iocloser: all histories of 4 operations over {Read, Write, Close(reader), Close(writer)}; unique.KeyedList: one inductive step from an arbitrary list over 3 keys, 4 operation kinds x 0..3 symbolic values (duplicates allowed), exact and coarse cmp; unique.KeyedMap: one inductive step, 3 operation kinds x 0..2 symbolic entries.",
-		Outside: "iosizer counts above 2^32-1 per call (the library drops them; buffers <= 8 bytes here); more than 3 keys; ioproxy (see DESIGN.md)",
+		Thorough: split(Job{H: "H_C20_Proxy", K: 30, U: 5, Fixes: proxyCases(), TimeoutSec: 6000}, 12),
+		Bounds:  "ioseek: one inductive step (Seek or Read) from an arbitrary valid state, all of size/position/offset full 64-bit, buffer length 0..8; iosizer: 4 calls (Read/Write symbolic) with arbitrary (n, err), buffers <= 8 bytes; iocloser: all histories of 4 operations over {Read, Write, Close(reader), Close(writer)}; unique.KeyedList: one inductive step from an arbitrary list over 3 keys, 4 operation kinds x 0..3 symbolic values (duplicates allowed), exact and coarse cmp; unique.KeyedMap: one inductive step, 3 operation kinds x 0..2 symbolic entries; ioproxy: two scripted streams of 0..2 bytes handed out in chunks of 1 or 2 bytes (stream b either ends with EOF or blocks until closed; quick: 3 case splits, thorough: all 72), every interleaving of the two pumps, io.CopyBuffer interpreted from the standard library's source.",
+		Outside: "iosizer counts above 2^32-1 per call (the library drops them; buffers <= 8 bytes here); more than 3 keys; ioproxy streams longer than 2 bytes, short writes and write errors",
 	}
 }
